@@ -1931,6 +1931,49 @@ mod assumed_contracts {
         s.sort_by(|a, b| b.total_cmp(a));
         assert!(s[0].is_nan() && s[1] == 3.0 && s[2] == -1.0);
     }
+    /// ndfloat.rs / ndess.rs / ndtrack.rs: slicing patterns, concatenate, broadcast, windows, Zip::fold order, means
+    #[test]
+    fn assumed_ndarray_contracts_2() {
+        use ndarray::s;
+        let a3 = Array3::from_shape_fn((2, 5, 3), |(c, t, p)| (100 * c + 10 * t + p) as f32);
+        let head = a3.slice(s![.., ..2, ..]);
+        let tail = a3.slice(s![.., -2.., ..]);
+        assert!(head.dim() == (2, 2, 3) && head[(1, 1, 2)] == 112.0 && tail.dim() == (2, 2, 3) && tail[(0, 0, 0)] == 30.0 && tail[(1, 1, 2)] == 142.0);
+        assert_eq!(a3.slice(s![.., -0.., ..]).dim(), (2, 5, 3)); // `-0..` is the whole axis
+        let cat = ndarray::concatenate(Axis(0), &[head, tail]).unwrap();
+        assert!(cat.dim() == (4, 2, 3) && cat[(2, 0, 0)] == 30.0 && cat[(1, 0, 1)] == 101.0);
+        assert!(ndarray::concatenate(Axis(0), &[a3.slice(s![.., ..2, ..]), a3.slice(s![.., ..3, ..])]).is_err());
+        let col = a3.slice(s![.., .., 1]);
+        assert!(col.dim() == (2, 5) && col[(1, 3)] == 131.0);
+        assert_eq!(col.slice(s![1, ..]).to_owned(), arr1(&[101.0f32, 111.0, 121.0, 131.0, 141.0]));
+        assert_eq!(col.mean_axis(Axis(1)).unwrap(), arr1(&[21.0f32, 121.0]));
+        assert!(Array2::<f32>::zeros((2, 0)).mean_axis(Axis(1)).is_none());
+        assert!(Array1::<f32>::zeros(0).mean().is_none() && arr1(&[1.0f32, 2.0]).mean() == Some(1.5));
+        assert_eq!(a3.index_axis(Axis(0), 1)[(4, 2)], 142.0);
+        assert_eq!(a3.mean_axis(Axis(0)).unwrap()[(2, 1)], 71.0);
+        // broadcast: Some iff the lengths agree (or the source has length 1); every row is the source
+        let v = arr1(&[1.0f32, 2.0, 3.0]);
+        let b = v.broadcast((4, 3)).unwrap();
+        assert!(b.dim() == (4, 3) && b.row(3) == v);
+        assert!(v.broadcast((4, 2)).is_none() && arr1(&[7.0f32]).broadcast((2, 5)).is_some());
+        // windows_with_stride(n, s): starts 0, s, 2s, ...; (len - n) / s + 1 windows
+        let w = arr1(&[0.0f32, 1.0, 2.0, 3.0, 4.0, 5.0, 6.0]);
+        let ws: Vec<_> = w.windows_with_stride(2, 2).into_iter().map(|x| x.to_vec()).collect();
+        assert_eq!(ws, vec![vec![0.0, 1.0], vec![2.0, 3.0], vec![4.0, 5.0]]);
+        assert_eq!(arr1(&[1.0f32]).windows_with_stride(2, 2).into_iter().count(), 0);
+        // Zip::fold visits the paired lanes in order
+        let m = arr2(&[[1.0f32, 2.0], [3.0, 4.0], [5.0, 6.0]]);
+        let n = arr2(&[[1.0f32, 2.0], [0.0, 4.0], [5.0, 6.0]]);
+        let order = ndarray::Zip::from(m.rows()).and(n.rows()).fold(vec![], |mut acc: Vec<(f32, bool)>, a, b| { acc.push((a[0], a != b)); acc });
+        assert_eq!(order, vec![(1.0, false), (3.0, true), (5.0, false)]);
+        assert_eq!(arr1(&[9.0f32, 8.0]).rows().into_iter().count(), 1); // a 1-D array has one lane
+        // element-wise ops used by the diagnostics
+        assert_eq!(arr1(&[4.0f32, 9.0]).sqrt(), arr1(&[2.0, 3.0]));
+        assert_eq!(arr1(&[4.0f32, 8.0]) / arr1(&[2.0f32, 4.0]), arr1(&[2.0, 2.0]));
+        assert_eq!(arr1(&[4.0f32, 8.0]).recip(), arr1(&[0.25, 0.125]));
+        assert_eq!(&arr1(&[4.0f32, 8.0]) - 1.0, arr1(&[3.0, 7.0]));
+        assert!(ndarray::stack(Axis(0), &[m.view(), n.view()]).unwrap().dim() == (2, 3, 2));
+    }
     /// tensor.rs / tensorops.rs: element-wise operations, slicing, reshape (row-major), expand, matmul, reductions, masks,
     /// slice_assign, permute, row-major to_data, element-type tags
     #[test]
@@ -1968,6 +2011,21 @@ mod assumed_contracts {
         assert_eq!(n.clone().greater_equal_elem(0.0).to_data().to_vec::<bool>().unwrap(), vec![false, true]);
         assert_eq!(n.clone().lower_elem(0.0).to_data().to_vec::<bool>().unwrap(), vec![false, false]);
         assert_eq!(n.is_nan().to_data().to_vec::<bool>().unwrap(), vec![true, false]);
+        // stacking, unsqueeze, 3-D slice_assign + permute as HMC::run uses them, bool reductions, scalar extraction
+        let r0 = Tensor::<B, 1>::from_data(TensorData::new(vec![1.0f64, 2.0], [2]), &Default::default());
+        let r1 = Tensor::<B, 1>::from_data(TensorData::new(vec![3.0f64, 4.0], [2]), &Default::default());
+        assert_eq!(Tensor::<B, 1>::stack::<2>(vec![r0.clone(), r1.clone()], 0).to_data().to_vec::<f64>().unwrap(), vec![1.0, 2.0, 3.0, 4.0]);
+        assert_eq!(r0.clone().unsqueeze::<2>().dims(), [1, 2]);
+        let mut out = Tensor::<B, 3>::empty([2, 2, 2], &Default::default());
+        out = out.slice_assign([0..1, 0..2, 0..2], t(vec![1.0, 2.0, 3.0, 4.0], 2, 2).unsqueeze_dim(0));
+        out = out.slice_assign([1..2, 0..2, 0..2], t(vec![5.0, 6.0, 7.0, 8.0], 2, 2).unsqueeze_dim(0));
+        assert_eq!(out.permute([1, 0, 2]).to_data().to_vec::<f64>().unwrap(), vec![1.0, 2.0, 5.0, 6.0, 3.0, 4.0, 7.0, 8.0]);
+        assert!(r0.clone().equal_elem(2.0).any().into_scalar() && !r0.clone().equal_elem(9.0).any().into_scalar());
+        assert_eq!((r0.clone() * r1.clone()).sum().into_scalar(), 11.0);
+        assert_eq!((r1.clone() - r0.clone()).to_data().to_vec::<f64>().unwrap(), vec![2.0, 2.0]);
+        assert_eq!(r0.clone().log().exp().sub(r0.clone()).abs().sum().into_scalar() < 1e-12, true);
+        assert_eq!(Tensor::<B, 2>::from_floats([[1.0, 2.0]], &Default::default()).dims(), [1, 2]);
+        assert_eq!(Tensor::<B, 1>::ones(burn::tensor::Shape::new([3]), &Default::default()).to_data().to_vec::<f64>().unwrap(), vec![1.0, 1.0, 1.0]);
         // autodiff: the gradient of sum(x^2) is 2x
         let x = Tensor::<B, 1>::from_data(TensorData::new(vec![1.5f64, -2.0], [2]), &Default::default()).require_grad();
         let y = x.clone().powi_scalar(2).sum();
